@@ -2,12 +2,14 @@
 pub mod bankops;
 pub mod curve;
 pub mod panic;
+pub mod prefee;
 
 pub fn lookup(name: &str) -> Option<fn(&str) -> String> {
     Some(match name {
         "panic" => panic::run,
         "curve" => curve::run,
         "bankops" => bankops::run,
+        "prefee" => prefee::run,
         _ => return None,
     })
 }
